@@ -32,6 +32,16 @@ def _init(cicada):
     _sb = Sandbox(cicada, "c13")
 
 
+# delivery -> (word written, text the word must become)
+INNER_DELIVERIES = {
+    "var-in-sub": ("$(vp_out I $V)", "R"),
+    "var-in-sub-affixed": ("pre$(vp_out I $V)post", "preRpost"),
+    "var-in-two-subs": ("$(vp_out I $V)$(vp_out J)", "RS"),
+    "sub-in-sub": ("$(vp_out I $(vp_out K))", "R"),
+    "var-in-backquote-affixed": ("x`vp_out I $V`", "xR"),
+}
+
+
 def setup_dir(sb, fname=None, as_dir=False):
     sb.clean_work()
     with open(os.path.join(sb.work, "f"), "w") as f:
@@ -69,6 +79,12 @@ def build(case):
         ref = "x`vp_out K | vp_st flt 0`" if quote == "unq" else "`vp_out K | vp_st flt 0`"
     elif deliv == "backquote-whole":
         ref = "`vp_out K`"          # the substitution is the entire word (the tokenizer gives such a word a tag of its own)
+    elif deliv in INNER_DELIVERIES:
+        # the expansion happens inside a substitution: the inner command (an observer that prints R) must receive the value as
+        # data, and the word gets what that command printed
+        if deliv != "sub-in-sub":
+            extra["V"] = v
+        ref = INNER_DELIVERIES[deliv][0]
     elif deliv == "glob":
         ref = "d/*"
     elif deliv == "glob-dir":
@@ -94,6 +110,8 @@ def build(case):
         exp = "d/" + v if quote == "unq" else "d/*"
     if deliv == "glob-dir":
         exp = ref if quote == "dq" else ref.replace("*", v)
+    if deliv in INNER_DELIVERIES:
+        exp = INNER_DELIVERIES[deliv][1]
     if deliv in ("backquote-sub", "backquote-sub-pipe") and quote == "unq":
         exp = "x" + v
     exp = affix + exp
@@ -109,6 +127,9 @@ def run_case(case):
     sb.reset_log()
     with open(os.path.join(sb.vpdir, "out.K"), "w") as f:
         f.write(case["value"] + "\n")
+    for ident, text in (("I", "R\n"), ("J", "S\n")):
+        with open(os.path.join(sb.vpdir, "out." + ident), "w") as f:
+            f.write(text)
     line, extra, expargs = build(case)
     before = sb.listing()
     r = run_cicada(sb, ["-c", line], timeout=15.0, env_extra=extra, watch=["W"])
@@ -129,6 +150,12 @@ def symptom(case, expargs, r, recs, before, after):
     other = [x for x in recs if x["name"] not in ("vp_argv", "vp_out") and not (x["name"] == "vp_st" and case["delivery"].endswith("-pipe"))]
     if other:
         return "extra-command-ran"
+    if case["delivery"] in INNER_DELIVERIES:
+        inner = [x for x in recs if x["name"] == "vp_out" and x["argv"][1:2] == ["I"]]
+        if len(inner) != 1:
+            return "inner-command-ran-%d-times" % len(inner)
+        if " ".join(" ".join(inner[0]["argv"][2:]).split()) != " ".join(case["value"].split()):
+            return "inner-command-received-other-arguments"
     if case["pos"] == "cmd":
         # no redirection happened (listing unchanged, checked above) and nothing else ran; which error the
         # shell reports for the unknown program name is not this property's business
@@ -215,6 +242,13 @@ def gen_cases(tier):
                                 cases.append({"value": v, "cls": cls, "delivery": deliv, "quote": quote, "pos": pos, "nb": 0, "affix": "key="})
                         for company in (None, "out-file"):
                             cases.append({"value": v, "cls": cls, "delivery": deliv, "quote": quote, "pos": "prefix", "nb": 0, "company": company})
+                    if deliv == "var":
+                        # ... and the reference stands inside a substitution
+                        for d2 in INNER_DELIVERIES:
+                            if "\n" in v and d2 != "sub-in-sub":
+                                continue
+                            for pos in (0, 1, 2):
+                                cases.append({"value": v, "cls": cls, "delivery": d2, "quote": quote, "pos": pos, "nb": 0})
                     for pos in (0, 1, 2):
                         # the same command also carries a genuine redirection written on the line
                         for company in ("in-file", "here-string", "out-file"):
@@ -235,7 +269,7 @@ def run(tier, seed):
     cicada = common.build_cicada("debug")
     rep = Report("C13", tier, seed)
     rep.rule = ("every value of 6 operator classes (> a>b >>zz | a|b & 'x &' && <f <<< 2>&1 ;x #c ...) x delivery "
-                "{$V exported, ${V}, $V assigned in the line, $(cmd), `cmd` inside a word and as a whole word, * match of a file with that name, * in a directory position matching a directory with that name} x "
+                "{$V exported, ${V}, $V assigned in the line, $(cmd), `cmd` inside a word and as a whole word, $V inside a substitution (whole word, with text around it, next to a second substitution, in backquotes) and a substitution inside a substitution, * match of a file with that name, * in a directory position matching a directory with that name} x "
                 "{unquoted, double-quoted} x argument position {first, middle, last} x 7 neighbouring words (plain, quoted, "
                 "backslash-tagged, empty): enumerated completely; every combination again (plain neighbour) with a genuine "
                 "`< f` / `<<< hs` / `> o.txt` written on the same command, which must still be the redirection applied; and "
@@ -254,7 +288,7 @@ def run(tier, seed):
             if "'" in v or "/" in v or "\0" in v or v in ("f", "d", "o.txt"):
                 continue          # (f, d, o.txt are the prepared directory's own entries)
             cls = "random-mix"
-            cases.append({"value": v, "cls": cls, "delivery": rng.choice(["var", "var-brace", "assigned-var", "dollar-sub", "backquote-sub", "backquote-whole", "glob", "glob-dir"]),
+            cases.append({"value": v, "cls": cls, "delivery": rng.choice(["var", "var-brace", "assigned-var", "dollar-sub", "backquote-sub", "backquote-whole", "glob", "glob-dir"] + sorted(INNER_DELIVERIES)),
                           "quote": rng.choice(["unq", "dq"]), "pos": rng.randrange(3), "nb": rng.randrange(len(NEIGHBOURS)),
                           "company": rng.choice([None, None, "in-file", "here-string", "out-file"])})
     results = common.pmap(_work, cases, init=_init, initargs=(cicada,), chunksize=8)
